@@ -517,10 +517,11 @@ func (e *Exec) vAssert(c Bool, id string) {
 	}
 	e.sol.Send("(pop 1)")
 	// continue under the assumption that the assertion holds
-	if !e.feasible(c.T) {
-		panic(pathAbort{"assert cannot hold"})
+	// (if it cannot hold on this path, carry on without it: the rest of the
+	// path is still worth checking, e.g. inside a known-finding region)
+	if e.feasible(c.T) {
+		e.assert(c.T)
 	}
-	e.assert(c.T)
 }
 
 func (e *Exec) mkViolation(id, msg string) Violation {
